@@ -208,13 +208,22 @@ class Ctx:
         lines = []
         new_viol = 0
         seen_known = set()
+        paths = {}
         for sig, v in sorted(self.found.items()):
             d = REPLAYS / self.prop
             d.mkdir(parents=True, exist_ok=True)
             path = d / (hashlib.sha256(sig.encode()).hexdigest()[:12] + ".json")
             path.write_text(jdump(v, indent=1))
-            ok = confirm_in_fresh_interpreter(self.prop, path)
-            if not ok:
+            paths[sig] = path
+        # every violation is re-executed from its replay file in a FRESH interpreter before it
+        # is believed (the confirmations are independent processes: run them concurrently)
+        from concurrent.futures import ThreadPoolExecutor
+
+        with ThreadPoolExecutor(max_workers=min(8, max(1, len(paths)))) as tp:
+            confirmed = dict(zip(paths, tp.map(lambda s: confirm_in_fresh_interpreter(self.prop, paths[s]), paths)))
+        for sig, v in sorted(self.found.items()):
+            path = paths[sig]
+            if not confirmed[sig]:
                 print(f"HARNESS-ERROR: {sig} did not reproduce in a fresh interpreter ({path})")
                 rc = max(rc, 2)
                 continue
@@ -223,8 +232,7 @@ class Ctx:
                 lines.append(f"KNOWN-FINDING: property={self.prop} {known_sigs[sig]['what']} [{sig}] replay={path}")
             else:
                 new_viol += 1
-                rel = path
-                lines.append(f"VIOLATION property={self.prop} replay={rel}")
+                lines.append(f"VIOLATION property={self.prop} replay={path}")
                 lines.append(f"  signature: {sig}")
                 lines.append(f"  detail: {jdump(v['detail'])[:600]}")
                 rc = max(rc, 1)
